@@ -260,7 +260,26 @@ def run(tier, replay=None):
           c = None
         if c:
           c.update(seed=s, cname=cname)
+          if any(d['name'] == c['pred'] for d in prog):
+            c['base_text'] = G.p_program(prog)
           cases.append(c)
+  import multiprocessing
+  from concurrent.futures import ProcessPoolExecutor
+  base_jobs = sorted(set((c['base_text'], c['pred']) for c in cases if c.get('base_text')))
+  if len(base_jobs) > 8:
+    with ProcessPoolExecutor(max_workers=8, mp_context=multiprocessing.get_context('spawn')) as ex:
+      base_res = list(ex.map(_worker, base_jobs, chunksize=8))
+  else:
+    base_res = [_worker(j) for j in base_jobs]
+  base_ok = {j: (res[0] == 'ok') for j, res in zip(base_jobs, base_res)}
+  base_rejected = 0
+  kept = []
+  for c in cases:
+    if c.get('base_text') and not base_ok.get((c['base_text'], c['pred']), True):
+      base_rejected += 1
+      continue
+    kept.append(c)
+  cases = kept
   # oracle: the evaluator must refuse the corrupted AST of the semantic classes
   items = []
   idx = []
@@ -275,6 +294,8 @@ def run(tier, replay=None):
   confirmed = {}
   for k, v in zip(idx, vals):
     confirmed[k] = v[0] if v else None
+  # the uncorrupted program must compile for the predicate that is going to be asked for (a valid program that
+  # the compiler rejects - known findings of C01/C07 - says nothing about the corruption)
   jobs, used = [], []
   not_invalid = 0
   for k, c in enumerate(cases):
@@ -285,8 +306,6 @@ def run(tier, replay=None):
     jobs.append((c['text'], c['pred']))
     used.append(c)
   # implementation
-  import multiprocessing
-  from concurrent.futures import ProcessPoolExecutor
   if len(jobs) > 8:
     with ProcessPoolExecutor(max_workers=8, mp_context=multiprocessing.get_context('spawn')) as ex:
       results = list(ex.map(_worker, jobs, chunksize=8))
@@ -328,6 +347,7 @@ def run(tier, replay=None):
       'explanation': 'every corruption must end in one of the four diagnostic exceptions naming the offender; theorems of '
                      'Props/C19.v are about the range-restriction decision of the reference evaluator',
       'corruptions_not_invalid_for_the_evaluator': not_invalid,
+      'dropped_because_the_uncorrupted_program_is_rejected': base_rejected,
       'outcome_histogram': dict(by_class),
       'samples': [{'corruption': c['cname'], 'predicate': c['pred'], 'text': c['text'][-600:]} for c in used[:3]],
   })
